@@ -97,6 +97,20 @@ func bitRefs(w *World, fn *ssa.Function) []BitRef {
 		var cont, idx ssa.Value
 		var addr *ssa.IndexAddr
 		switch x := ins.(type) {
+		case *ssa.Call:
+			// the package's own single-bit readers (their forms are C12's obligations): Get1(C, x) / Get(C, x)
+			if f := x.Common().StaticCallee(); f != nil && fnPkg(f) != nil && fnPkg(f).Name() == "bitmap" && len(x.Common().Args) == 2 &&
+				(f.Name() == "Get" || f.Name() == "Get1") && f.Signature.Recv() == nil && isWordSlice(x.Common().Args[0].Type()) {
+				c, px := x.Common().Args[0], x.Common().Args[1]
+				br := BitRef{Ins: ins, Cont: c, Role: containerRole(c), Pos: px, PosLin: fa.Lin(px), Use: x, OffWidth: 6}
+				if off, ok := sliceOffset(fa, c); ok {
+					br.PosLin = br.PosLin.Add(linConst(0).addScaled(off, 64))
+				} else {
+					br.Problem = "the word container is a merged re-sliced view whose offset cannot be determined"
+				}
+				out = append(out, br)
+			}
+			return
 		case *ssa.IndexAddr:
 			cont, idx, addr = x.X, x.Index, x
 		case *ssa.Index:
@@ -218,6 +232,14 @@ func bitKnownSet(conds []Cond, br *BitRef) bool {
 	ub, _ := br.Use.(*ssa.BinOp)
 	single := map[ssa.Value]bool{}
 	var sel ssa.Value
+	isGet1 := false
+	if call, ok := br.Use.(*ssa.Call); ok {
+		// Get (word & Bit[x]: zero or the single bit) or Get1 (0 or 1)
+		single[br.Use] = true
+		if f := call.Common().StaticCallee(); f != nil && f.Name() == "Get1" {
+			isGet1 = true
+		}
+	}
 	if ub != nil && ub.Op == token.AND {
 		single[br.Use] = true
 		sel = ub.Y
@@ -263,7 +285,7 @@ func bitKnownSet(conds []Cond, br *BitRef) bool {
 			return true
 		case isK && k == 0 && isUnsigned(x.Type()) && (op == token.GTR && cd.Pol || op == token.LEQ && !cd.Pol):
 			return true
-		case isK && k == 1 && sel == nil && (op == token.EQL && cd.Pol || op == token.NEQ && !cd.Pol || op == token.GEQ && cd.Pol || op == token.LSS && !cd.Pol):
+		case isK && k == 1 && sel == nil && (ub != nil || isGet1) && (op == token.EQL && cd.Pol || op == token.NEQ && !cd.Pol || op == token.GEQ && cd.Pol || op == token.LSS && !cd.Pol):
 			return true // s = (w>>off)&1 is 0 or 1
 		case sel != nil && !isK && y == stripConv(sel) && (op == token.EQL && cd.Pol || op == token.NEQ && !cd.Pol):
 			return true
